@@ -464,6 +464,40 @@ def main():
             if len(tally.samples) < 5:
                 tally.samples.append(smp)
     tally.failures = list(merged.values())[: tally.max_failures]
+    # ---- curated: EQUAL leaves of DIFFERENT types (1 == 1.0 == True): every leaf is checked on its own, equal or not
+    import typing
+
+    import jaxtyping
+
+    eq_trees = ["[1, 1.0]", "[1.0, 1]", "[True, 1]", "[1, True]", "(1, (1.0,))", "{'a': 1, 'b': 1.0}", "[1, None, (), 1.0]", "['s', 's', 1]", "[1, 1, 1]", "[(1, 2), (1.0, 2)]", "[0, False, 0.0]"]
+    eq_types = {"int": (int, lambda v: isinstance(v, int)), "bool": (bool, lambda v: isinstance(v, bool)),  # (not float: the checker follows the numeric tower, float accepts int)
+                "typing.Union[int, str]": (typing.Union[int, str], lambda v: isinstance(v, (int, str))),
+                "tuple[int, int]": (tuple[int, int], lambda v: isinstance(v, tuple) and len(v) == 2 and all(isinstance(e, int) for e in v))}
+    n_eq = 0
+    for tsrc in eq_trees:
+        tree = eval(tsrc)
+        for lname, (ltype, pred) in eq_types.items():
+            def leaves_of(x):
+                if pred(x):
+                    return [x]
+                if x is None:
+                    return []
+                if isinstance(x, (list, tuple)):
+                    return [l for c in x for l in leaves_of(c)]
+                if isinstance(x, dict):
+                    return [l for k_ in sorted(x) for l in leaves_of(x[k_])]
+                return [x]
+            want = all(pred(l) for l in leaves_of(tree))
+            for nested in (False, True):
+                ann = jaxtyping.PyTree[jaxtyping.PyTree[ltype]] if nested else jaxtyping.PyTree[ltype]
+                with jaxtyping.jaxtyped("context"):
+                    got = isinstance(tree, ann)
+                n_eq += 1
+                tally.case(("equal-leaves", tsrc, lname, nested), nontrivial=True)
+                if got != want:
+                    tally.fail(f"equal-leaves-of-different-types:{lname}:{tsrc}:{'nested' if nested else 'plain'}", "every-leaf-is-checked-even-if-equal-to-an-earlier-one", input={"tree": tsrc, "L": lname, "nested": nested},
+                               expected=want, actual=got,
+                               snippet=f"import typing, jaxtyping\nwith jaxtyping.jaxtyped('context'): print(isinstance({tsrc}, jaxtyping.PyTree[{'jaxtyping.PyTree[' + lname + ']' if nested else lname}]))")
     n_trees = sum(r["n_trees"] for r in results)
     stopped_early = any(r["stopped_early"] for r in results)
     states = pl["states"]
